@@ -3,5 +3,5 @@
 # usage: bin/thorough_sweep.sh ID...   (run from a snapshot: links ../repo to /repo first)
 [ -e ../repo ] || ln -sfn "${VP_RUN_REPO:-/repo}" ../repo
 for ID in "$@"; do
-  echo "=== $ID"; bin/check "$ID" thorough 2>&1 | grep -E "^(VIOLATION|OK|FAILED|INCONCLUSIVE|  detail|SUSPECT)" | cut -c1-600
+  echo "=== $ID"; bin/check "$ID" thorough 2>&1 | grep -E "^(VIOLATION|OK|FAILED|INCONCLUSIVE|  detail|SUSPECT|FUZZ|NOTE)" | cut -c1-600
 done
